@@ -29,7 +29,7 @@ def prove_slot_selection(src_root, ex: Explorer):
     """C06.slot-free#manage_transfers.*: a transfer handed to manage_transfers has both slots empty (step contract of
     the selection loop, arbitrary transfer, arbitrary accumulators)."""
     def path(ctx: Ctx):
-        o = C05.run_selection_step(src_root, ctx, 'C06')
+        o = C05.run_selection_step(src_root, ctx, 'C06', done_tasks=True)
         t = o['t']
         in_up, in_down = any(x is t for x in o['uploads']), any(x is t for x in o['downloads'])
         free = t.attrs['_transfer_task'] is None and t.attrs['_remotely_queue_task'] is None
@@ -273,6 +273,35 @@ PEER_HANDLERS = [
 ]
 
 
+def prove_abort_records_reason(src_root, ex: Explorer):
+    """abort(reason) of every state that accepts it stores the reason as the ABORT reason and leaves the fail reason alone: the re-evaluation
+    after share / block / friend changes (C08.evaluate.table) re-queues an aborted upload unless its abort reason says the USER asked for
+    it - a user's abort recorded anywhere else is undone by the next re-evaluation"""
+    def path(ctx: Ctx):
+        it = mk(src_root, ctx)
+        effects: list = []
+        C03.install_env(it, ctx, effects)
+        sname = C03.STATE_CLASSES[ctx.choose(len(C03.STATE_CLASSES), 'state')]
+        direction = ['DOWNLOAD', 'UPLOAD'][ctx.choose(2, 'direction')]
+        notified: list = []
+        t, lock = C03.mk_transfer(it, ctx, direction, notified, with_tasks=True)
+        st = it.call(cls(it, STATE, sname), [t], {})
+        t.attrs['state'] = st
+        t.attrs['fail_reason'] = 'earlier fail reason'
+        t.attrs['abort_reason'] = None
+        lock.locked = True
+        try:
+            r = run(it, it.getattr(st, 'abort'), 'Requested')
+        except PyRaise as pr:
+            ctx.fail(f'C06.final.abort-records-reason[{sname},{direction.lower()}]', repr(pr.exc))
+            return
+        if it.truth(r) is True:
+            ctx.prove(f'C06.final.abort-records-reason[{sname},{direction.lower()}]',
+                      t.attrs['abort_reason'] == 'Requested' and t.attrs['fail_reason'] == 'earlier fail reason',
+                      f'after abort("Requested"): abort_reason={t.attrs["abort_reason"]!r}, fail_reason={t.attrs["fail_reason"]!r}')
+    ex.run(path, 'abort-records-reason')
+
+
 def prove_peer_queue_leaves_processing(src_root, ex: Explorer):
     """(for C05) a repeated PeerTransferQueue for an upload that is QUEUED, INITIALIZING or UPLOADING changes nothing: the upload keeps its
     state object (an INITIALIZING upload put back to QUEUED keeps its initialisation task running and is initialised a second time - two
@@ -396,7 +425,7 @@ def prove_relies_on(src_root, ex: Explorer, which):
 
 def items(src_root, tier):
     return [('relies', 'race'), ('relies', 'attempts'), ('relies', 'evaluate'), ('slot', None), ('assigns', None), ('callbacks', None), ('cancel', None), ('queue_remotely', None), ('request_site', None), ('remove', None),
-            ('stale', None), ('peer-messages', None)]
+            ('stale', None), ('peer-messages', None), ('abort-reason', None)]
 
 
 def run_item(src_root, item, tier):
@@ -413,7 +442,7 @@ def run_item(src_root, item, tier):
             return res
         {'slot': prove_slot_selection, 'assigns': prove_manage_assigns, 'callbacks': prove_done_callbacks, 'cancel': prove_cancel_all,
          'queue_remotely': prove_queue_remotely, 'request_site': prove_transfer_request_site, 'remove': prove_remove,
-         'stale': prove_stale_dispatch, 'peer-messages': prove_peer_messages_after_stop}[kind](src_root, ex)
+         'stale': prove_stale_dispatch, 'peer-messages': prove_peer_messages_after_stop, 'abort-reason': prove_abort_records_reason}[kind](src_root, ex)
     except Unsupported as e:
         res.errors.append(f'{kind}: unsupported: {e}')
     collect(res, ex)
